@@ -59,14 +59,18 @@ type c14Cfg struct {
 	BadProg bool   `json:"badProg"`
 	BadAt   int    `json:"badAt"`
 	BadKind string `json:"badKind"`
-	Stop    string `json:"stop,omitempty"`  // MC_Cli: where the program exits ("pool": whatever the pool program does)
-	Alias   string `json:"alias,omitempty"` // MC_Cli: the -o path is the input file ("none": a path of its own)
+	Stop    string `json:"stop,omitempty"`   // MC_Cli: where the program exits ("pool": whatever the pool program does)
+	Alias   string `json:"alias,omitempty"`  // MC_Cli: the -o path is the input file ("none": a path of its own)
+	Pre     string `json:"pre,omitempty"`    // MC_Cli: what a -o path of its own holds beforehand ("absent" | "stale")
+	OFault  string `json:"ofault,omitempty"` // MC_Cli: the -o path cannot be created ("nodir" | "isdir") / written ("full")
 }
 
 func (k c14Cfg) inPlace() bool { return k.Alias != "" && k.Alias != "none" }
 func (k c14Cfg) stops() bool   { return k.Stop != "" && k.Stop != "pool" }
 
 func (k c14Cfg) faulty() bool { return k.BadProg || k.BadAt > 0 }
+
+func (k c14Cfg) outFault() bool { return k.OFault != "" && k.OFault != "none" }
 
 type c14Vec struct {
 	Cfg c14Cfg `json:"cfg"`
@@ -79,7 +83,8 @@ type c14Vec struct {
 	Diag      bool     `json:"diag"`
 	Stdout    []string `json:"stdout"`
 	Outfile   string   `json:"outfile"`
-	Stream    []string `json:"stream"` // MC_CliBytes: stdout as bytes, "<lib>", "<json>"
+	OutStale  string   `json:"outfileStale"` // MC_CliBytes: the same when the -o path held an earlier result
+	Stream    []string `json:"stream"`       // MC_CliBytes: stdout as bytes, "<lib>", "<json>"
 }
 
 type c14Prog struct {
@@ -117,6 +122,8 @@ var c14Progs = []c14Prog{
 	{Src: `BEGINFILE { print "bf", $file } ENDFILE { print "ef" }`, UsesFile: true, Stateless: true},
 	{Src: ``, Stateless: true},
 	{Src: `{ $.me = $ }`, Stateless: true},
+	// a root without a JSON form, after the program printed something
+	{Src: `{ print "seen", $.x; $.pat = /x/ }`, Stateless: true},
 	{Src: `BEGINFILE { $.k = $ }`, Stateless: true, ReadsBF: true},
 	{Src: "function f(v) { return v * 2 }\n{ print f($.x) }", Stateless: true},
 	{Src: `BEGINFILE { print "root", $ } ENDFILE { print "was", $ }`, Stateless: true, ReadsBF: true},
@@ -194,6 +201,7 @@ type c14Run struct {
 	Args   []string
 	Res    BinResult
 	OutDoc []byte // content of the -o FILE, nil if absent
+	OutDir bool   // the -o path is a directory after the run
 	Skip   string // not conclusive: why
 }
 
@@ -340,8 +348,20 @@ func c14Exec(c *Ctx, base string, n int, r *c14Run) {
 		case "spelled":
 			outName = "./" + in0 // another spelling of the same path
 		}
+		switch k.OFault {
+		case "nodir": // cannot be created: its directory does not exist
+			outName = filepath.Join("nodir", "out.json")
+		case "isdir": // cannot be created: it is a directory
+			outName = "outdir"
+			os.MkdirAll(filepath.Join(dir, outName), 0o755)
+		case "full": // can be created (opened), cannot be written
+			outName = "/dev/full"
+			if st, err := os.Stat(outName); err != nil || st.Mode()&os.ModeCharDevice == 0 {
+				r.Skip = "no /dev/full here"
+			}
+		}
 		args = append(args, "-o", outName)
-		if r.Stale && !k.inPlace() {
+		if r.Stale && !k.inPlace() && !k.outFault() {
 			os.WriteFile(filepath.Join(dir, "out.json"), c14StaleDoc, 0o644)
 		}
 	}
@@ -397,10 +417,15 @@ func c14Exec(c *Ctx, base string, n int, r *c14Run) {
 	}
 	r.Args = args
 	r.Res = c.RunBin(args, stdin, dir, 30*time.Second)
-	if b, err := os.ReadFile(filepath.Join(dir, outName)); err == nil {
-		r.OutDoc = b
-		if r.OutDoc == nil {
-			r.OutDoc = []byte{}
+	outPath := outName
+	if !filepath.IsAbs(outPath) {
+		outPath = filepath.Join(dir, outName)
+	}
+	if st, err := os.Stat(outPath); err == nil && st.IsDir() {
+		r.OutDir = true
+	} else if err == nil && st.Mode().IsRegular() {
+		if b, err := os.ReadFile(outPath); err == nil {
+			r.OutDoc = append([]byte{}, b...)
 		}
 	}
 }
@@ -437,6 +462,9 @@ func c14Rep(r *c14Run) map[string]any {
 		m["text_channel"] = r.Chan
 		m["text_bytes"] = fmt.Sprintf("%q", r.Text)
 	}
+	if r.OutDir {
+		m["out_file"] = "(a directory)"
+	}
 	if r.Stale {
 		m["out_file_before_run"] = fmt.Sprintf("%d bytes of other content", len(c14StaleDoc))
 	}
@@ -446,7 +474,8 @@ func c14Rep(r *c14Run) map[string]any {
 func checkC14(c *Ctx) {
 	c.Assume("the exact exit code of a failure is not compared (the statement says non-zero); error messages are not compared, only stderr non-empty when the status is non-zero")
 	c.Assume("stdout is not compared when the run fails before or instead of evaluating (missing / unreadable file, -o with several inputs): the statement only fixes status and diagnostic there")
-	c.Assume("whether -o FILE exists, and what it holds, after a failed run is not compared (the statement fixes the bytes written, and -o - prints none then); in half of the -o FILE runs the file exists beforehand with longer content; -o FILE naming the input file (same string, ./ spelling, symbolic link, hard link) must behave as a FILE of its own: same stdout, the document in FILE")
+	c.Assume("-o FILE after a failed run (failing program, a root without a JSON form, several inputs, unusable input or program file, FILE cannot be created): -o - prints no document then, so FILE must be as it was found (JqCli TouchedLate, FailureWritesNothing): not created, an earlier result (longer content) neither truncated nor rewritten, the input file (in place) intact; every -o FILE shape is run with FILE absent and with FILE holding an earlier result; -o FILE naming the input file (same string, ./ spelling, symbolic link, hard link) must behave as a FILE of its own: same stdout, the document in FILE")
+	c.Assume("a -o FILE that cannot be created is a path in a directory that does not exist and a path that is a directory; one that is created but cannot be written is /dev/full (inconclusive where there is none); a directory without write permission is not used (no obstacle when running as root); what a regular file holds after a write that failed half way is not modelled; a failing write of -o - (stdout itself full or closed) is not exercised: the program's own output goes the same way and the library does not report it either")
 	c.Assume("a program that exits before it would have read an unusable input: a missing / mode-000 file must still be refused (every input is opened before the program runs: JqCli OpensAll); stdout of such a refused run is not compared")
 	c.Assume("stdin vs named file only for programs that do not print $file; -r E vs BEGINFILE { $ = E } only for one selector and programs that do not inspect $ in BEGINFILE/ENDFILE")
 	c.Assume("file / selector order: output blocks are compared for programs whose output for (A, B) is the output for A followed by that for B (no BEGIN/END, no state carried over), on runs that succeed; selector order on inputs with one value per file")
@@ -462,7 +491,8 @@ func checkC14(c *Ctx) {
 	table := map[string]map[string]*c14Vec{}
 	c.TLC(TLCOpt{Module: "MC_Cli", Workers: 4, Heap: "2g",
 		Cfg: cfgText("SPECIFICATION Spec", "INVARIANT CliTypeOK", "INVARIANT StatusIffOk", "INVARIANT DiagIffFail", "INVARIANT StdoutShape", "INVARIANT ByteOrder",
-			"INVARIANT CallOrder", "INVARIANT OpenOrder", "INVARIANT OpensAll", "INVARIANT ReadsOriginal", "INVARIANT AgreesWithResult", "INVARIANT Laws", "INVARIANT Complete", "INVARIANT Vec"),
+			"INVARIANT CallOrder", "INVARIANT OpenOrder", "INVARIANT OpensAll", "INVARIANT ReadsOriginal", "INVARIANT TouchedLate", "INVARIANT FailureWritesNothing", "INVARIANT OutFaultReported",
+			"INVARIANT AgreesWithResult", "INVARIANT Laws", "INVARIANT Complete", "INVARIANT Vec"),
 		OnVec: func(raw []byte) {
 			v := &c14Vec{}
 			VecDecode(raw, v)
@@ -472,8 +502,8 @@ func checkC14(c *Ctx) {
 			}
 			table[k][v.Lib.Outcome+"/"+v.Lib.JSON] = v
 		}})
-	if len(table) != 816 {
-		infra("C14: expected 816 command lines from MC_Cli (324 shapes; the wrapper's refusals x the stops of the program; -o naming the input), got %d", len(table))
+	if len(table) != 1128 {
+		infra("C14: expected 1128 command lines from MC_Cli (324 shapes; the wrapper's refusals x the stops of the program; -o naming the input; -o FILE holding an earlier result; -o FILE that cannot be created / written), got %d", len(table))
 	}
 
 	// ---- the pool of triples
@@ -507,9 +537,38 @@ func checkC14(c *Ctx) {
 		nTriples = len(triples)
 	}
 	sel := triples[:nTriples]
-	bounds := map[string]any{"command_line_shapes": 324, "command_lines": "816: the 324 shapes; each refusal of the wrapper (unusable input, -o with several inputs) x every stop of the program (never, BEGIN, first input, second input) x 2-3 programs holding the exit in a BEGINFILE / pattern / ENDFILE rule x 2 input sets; -o naming the one input file (same string, other spelling, symbolic link, hard link)",
+	bounds := map[string]any{"command_line_shapes": 324, "command_lines": "1128: the 324 shapes; every -o FILE of its own also with an earlier result in it; -o FILE that cannot be created (no such directory, a directory) or written (/dev/full) x -f / inline x stdin / file x 0-2 selectors; each refusal of the wrapper (unusable input, -o with several inputs) x every stop of the program (never, BEGIN, first input, second input) x 2-3 programs holding the exit in a BEGINFILE / pattern / ENDFILE rule x 2 input sets; -o naming the one input file (same string, other spelling, symbolic link, hard link)",
 		"triples": nTriples, "triples_for_fault_shapes": nFaultTriples, "triples_for_the_r_beginfile_shapes": len(triples),
 		"programs": len(progs), "input_sets": len(c14Inputs)}
+	// the programs that leave a root without a JSON form (it contains itself, it holds a regex) x every input set: run in
+	// every shape that has a JSON step (-o - prints no document then, and -o FILE must stay as it was found)
+	var jsonless []*c14Triple
+	for _, t := range triples {
+		if strings.Contains(t.P.Src, "$.me = $") || strings.Contains(t.P.Src, "$.pat = /x/") {
+			jsonless = append(jsonless, t)
+		}
+	}
+	withJsonless := func(ts []*c14Triple) []*c14Triple {
+		out := append([]*c14Triple{}, ts...)
+		for _, t := range jsonless {
+			have := false
+			for _, o := range ts {
+				have = have || o == t
+			}
+			if !have {
+				out = append(out, t)
+			}
+		}
+		return out
+	}
+	selJSON := withJsonless(sel)
+	nOutFault := 12
+	if c.Thorough() {
+		nOutFault = len(sel)
+	}
+	selOutFault := withJsonless(sel[:nOutFault])
+	bounds["triples_for_shapes_with_a_json_step"] = len(selJSON)
+	bounds["triples_for_o_file_fault_shapes"] = len(selOutFault)
 	c.Set("bounds", bounds)
 
 	// ---- plan the binary runs
@@ -554,6 +613,10 @@ func checkC14(c *Ctx) {
 			return sel[:nFaultTriples]
 		case cfg.ProgVia == "inline" && cfg.NFiles == 1 && cfg.NSel == 1 && cfg.Out != "path":
 			return triples
+		case cfg.outFault():
+			return selOutFault
+		case cfg.Out != "none":
+			return selJSON
 		}
 		return sel
 	}
@@ -615,7 +678,7 @@ func checkC14(c *Ctx) {
 	nOpaque := 0
 	c.TLC(TLCOpt{Module: "MC_CliBytes", Workers: 8, Heap: "4g",
 		Cfg: cfgText("SPECIFICATION Spec", fmt.Sprintf("CONSTANT MaxLen = %d", maxLen), "INVARIANT CliTypeOK", "INVARIANT StatusIffOk", "INVARIANT DiagIffFail",
-			"INVARIANT StdoutShape", "INVARIANT ByteOrder", "INVARIANT CallOrder", "INVARIANT OpenOrder", "INVARIANT OpensAll", "INVARIANT ReadsOriginal", "INVARIANT Transparent", "INVARIANT AgreesWithResult",
+			"INVARIANT StdoutShape", "INVARIANT ByteOrder", "INVARIANT CallOrder", "INVARIANT OpenOrder", "INVARIANT OpensAll", "INVARIANT ReadsOriginal", "INVARIANT TouchedLate", "INVARIANT FailureWritesNothing", "INVARIANT Transparent", "INVARIANT AgreesWithResult",
 			"INVARIANT Laws", "INVARIANT Complete", "INVARIANT Vec"),
 		OnVec: func(raw []byte) {
 			v := &struct {
@@ -676,14 +739,22 @@ func checkC14(c *Ctx) {
 	c.Count("text_runs", int64(nTextRuns))
 	c.Count("texts", int64(len(textOrder)))
 
-	// every other -o FILE run finds the target already there, with longer content
+	// a -o FILE of its own is there beforehand, with longer content, where the model's command line says so
+	// (MC_Cli: pre = "stale"); every other run of a text (MC_CliBytes: its vectors carry both expectations)
 	nPath := 0
 	for _, r := range runs {
 		if r.Cfg.Out == "path" {
-			r.Stale = nPath%2 == 0
-			nPath++
+			if r.Rows == nil {
+				r.Stale = r.Cfg.Pre == "stale"
+			} else {
+				r.Stale = nPath%2 == 0
+				nPath++
+			}
 			if r.Stale {
 				c.Count("o_file_preexisting_runs", 1)
+			}
+			if r.Cfg.outFault() {
+				c.Count("o_file_fault_runs_"+r.Cfg.OFault, 1)
 			}
 		}
 	}
@@ -746,6 +817,37 @@ func checkC14(c *Ctx) {
 			return "err/na"
 		}
 		return ""
+	}
+
+	// what the -o path must hold after the run, by the model's row (JqCli outfile): the document; or what it held
+	// before: nothing, an earlier result, the input document (in place), a directory; "sink": a device, nothing to see
+	outfileOK := func(r *c14Run, exp *c14Vec, lib *Result) bool {
+		if r.Cfg.Out != "path" {
+			return true
+		}
+		want := exp.Outfile
+		if r.Rows != nil && r.Stale {
+			want = exp.OutStale
+		}
+		if want != "json" {
+			c.Count("o_file_compared_as_found_"+want, 1)
+		}
+		switch want {
+		case "json":
+			return lib != nil && r.OutDoc != nil && bytes.Equal(r.OutDoc, lib.JS)
+		case "absent":
+			return r.OutDoc == nil && !r.OutDir
+		case "stale":
+			return r.Stale && r.OutDoc != nil && bytes.Equal(r.OutDoc, c14StaleDoc)
+		case "doc":
+			return r.OutDoc != nil && bytes.Equal(r.OutDoc, []byte(r.T.I.Docs[r.Order[0]]))
+		case "dir":
+			return r.OutDir
+		case "sink":
+			return true
+		}
+		infra("C14: unknown outfile %q in the model's row for %s", want, r.Key)
+		return false
 	}
 
 	// ---- compare every run with the model's row
@@ -839,6 +941,11 @@ func checkC14(c *Ctx) {
 			c.Violation("cli-status", rep)
 			continue
 		}
+		if !exp.Status0 && !outfileOK(r, exp, lib) {
+			// a failed run wrote to / created / truncated the -o path
+			c.Violation("cli-outfile-after-failure", rep)
+			continue
+		}
 		if !exp.Evaluated || (r.Cfg.Out != "none" && r.Cfg.NFiles > 1) {
 			c.Case(r.Key, true)
 			continue
@@ -885,11 +992,9 @@ func checkC14(c *Ctx) {
 			c.Violation("cli-stdout", rep)
 			continue
 		}
-		if exp.Outfile == "json" {
-			if r.OutDoc == nil || !bytes.Equal(r.OutDoc, lib.JS) {
-				c.Violation("cli-outfile", rep)
-				continue
-			}
+		if exp.Status0 && !outfileOK(r, exp, lib) {
+			c.Violation("cli-outfile", rep)
+			continue
 		}
 		c.Case(r.Key, true)
 		nSample++
@@ -901,7 +1006,7 @@ func checkC14(c *Ctx) {
 	// ---- differential pairs between binary runs
 	conclusive := func(r *c14Run) bool { return r != nil && !r.Res.TimedOut && r.Skip == "" }
 	same := func(name string, a, b *c14Run, withOut bool) {
-		if !conclusive(a) || !conclusive(b) {
+		if !conclusive(a) || !conclusive(b) || a.T != b.T {
 			return
 		}
 		ok := (a.Res.Exit == 0) == (b.Res.Exit == 0) && bytes.Equal(a.Res.Stdout, b.Res.Stdout)
@@ -946,16 +1051,26 @@ func checkC14(c *Ctx) {
 			// -o FILE holds what -o - appends
 			if cfg.Out == "path" {
 				c2 := cfg
-				c2.Out = "dash"
+				c2.Out, c2.Pre, c2.OFault = "dash", "absent", "none"
 				if cfg.inPlace() {
 					c2.Alias = "none"
 					c.Count("pairs_o-in-place-dash", 1)
 				}
 				d := byKey[fmt.Sprintf("%s|%d", c14Key(c2), ti)]
+				if d != nil && d.T != r.T {
+					d = nil
+				}
 				if conclusive(r) && conclusive(d) && r.Res.Exit == 0 && d.Res.Exit == 0 {
 					c.Count("pairs_o-path-dash", 1)
 					if r.OutDoc == nil || !bytes.Equal(d.Res.Stdout, append(append([]byte{}, r.Res.Stdout...), r.OutDoc...)) {
 						c.Violation("cli-pair-o-path-dash", map[string]any{"path": c14Rep(r), "dash": c14Rep(d)})
+					}
+				}
+				// on the error path: -o - printed nothing after the program's output, and so did the -o FILE run
+				if conclusive(r) && conclusive(d) && r.Res.Exit != 0 && d.Res.Exit != 0 && cfg.NFiles <= 1 {
+					c.Count("pairs_o-path-dash-failed", 1)
+					if !bytes.Equal(d.Res.Stdout, r.Res.Stdout) {
+						c.Violation("cli-pair-o-path-dash-failed", map[string]any{"path": c14Rep(r), "dash": c14Rep(d)})
 					}
 				}
 			}
